@@ -103,9 +103,11 @@ void ApiRun::generate() {
     // prologue so that short runs are not spent on no-ops
     auto push = [&](OpK k) { Op o; o.k = k; o.a = (uint32_t) r.next(); o.b = (uint32_t) r.next(); o.c = (uint32_t) r.next(); o.d = (uint32_t) r.next(); o.seed = r.next(); ops.push_back(o); return &ops.back(); };
     push(O_CifCreate);
-    { Op *o = push(O_BlockCreate); o->code = gen_code(r, false); }
+    { Op *o = push(O_BlockCreate); o->code = gen_code(r, false); o->b = 1; }
+    std::vector<unsigned> wsetup = w;
+    for (int k : {O_BlockCreate, O_LoopCreate, O_SetValue, O_LoopAddPacket, O_FrameCreate, O_LoopAddItem}) wsetup[(size_t) k] *= 4;
     for (int i = 0; i < nops; ++i) {
-        OpK k = (OpK) r.weighted(w);
+        OpK k = (OpK) r.weighted(i < nops / 3 ? wsetup : w);
         Op *o = push(k);
         switch (k) {
             case O_BlockCreate: case O_BlockGet: case O_FrameCreate: case O_FrameGet: o->code = gen_code(r, true); o->null_arg = r.chance(1, 40); break;
@@ -167,12 +169,42 @@ int ApiRun::pick_cont(uint32_t x, bool need_free_cif) {
     if (forced_cont >= 0) return (conts[(size_t) forced_cont].h && (!need_free_cif || cifs[(size_t) conts[(size_t) forced_cont].cif].iter < 0)) ? forced_cont : -1;
     std::vector<int> v;
     for (size_t i = 0; i < conts.size(); ++i) if (conts[i].h && (!need_free_cif || cifs[(size_t) conts[i].cif].iter < 0)) v.push_back((int) i);
+    if (v.empty() || (x % 7 == 0 && conts.size() < 30)) {
+        // (re)acquire a handle on some existing container by looking it up from the top, as an application would
+        std::vector<std::pair<int, uint64_t>> all;
+        std::function<void(int, MCont &)> rec = [&](int ci, MCont &m) { all.push_back({ci, m.uid}); for (auto &f : m.frames) rec(ci, f); };
+        for (size_t ci = 0; ci < cifs.size(); ++ci) if (cifs[ci].cif && cifs[ci].iter < 0) for (auto &b : cifs[ci].model.blocks) rec((int) ci, b);
+        if (!all.empty()) {
+            auto pr = all[(x / 7) % all.size()];
+            cif_container_tp *h = NULL;
+            bool was = cfg.enumerate_alloc; cfg.enumerate_alloc = false;
+            int rc = temp_handle(pr.first, pr.second, &h);
+            cfg.enumerate_alloc = was;
+            if (rc != CIF_OK || !h) violate("rc", strprintf("lookup:%s", rc_name(rc)), strprintf("looking up an existing container by its codes failed: %s", rc_name(rc)));
+            ev("reacquired a container handle");
+            return add_cont(h, pr.first, pr.second);
+        }
+    }
     return v.empty() ? -1 : v[x % v.size()];
 }
 int ApiRun::pick_loop(uint32_t x, bool need_free_cif, bool allow_stale) {
     if (forced_loop >= 0) { HLoop &f = loops[(size_t) forced_loop]; return (f.h && !f.locked && (allow_stale || !loop_stale(forced_loop)) && (!need_free_cif || cifs[(size_t) f.cif].iter < 0)) ? forced_loop : -1; }
     std::vector<int> v;
     for (size_t i = 0; i < loops.size(); ++i) if (loops[i].h && !loops[i].locked && (allow_stale || !loop_stale((int) i)) && (!need_free_cif || cifs[(size_t) loops[i].cif].iter < 0)) v.push_back((int) i);
+    if (v.empty() || (x % 5 == 0 && loops.size() < 30)) {
+        // acquire a handle on some existing loop through a container handle we hold (cif_container_get_item_loop)
+        std::vector<std::pair<int, uint64_t>> all;
+        for (size_t hs = 0; hs < conts.size(); ++hs) if (conts[hs].h && cifs[(size_t) conts[hs].cif].iter < 0) { MCont *m = mcont((int) hs); if (m) for (auto &l : m->loops) all.push_back({(int) hs, l.uid}); }
+        if (!all.empty()) {
+            auto pr = all[(x / 5) % all.size()];
+            MCont *m = mcont(pr.first); MLoop *l = m->loop_by_uid(pr.second);
+            cif_loop_tp *h = NULL;
+            int rc = cif_container_get_item_loop(conts[(size_t) pr.first].h, UC(l->names[0].orig), &h);
+            if (rc != CIF_OK || !h) violate("rc", strprintf("cif_container_get_item_loop:%s!=CIF_OK", rc_name(rc)), strprintf("cif_container_get_item_loop(%s) on an existing item failed: %s", u8(l->names[0].orig).c_str(), rc_name(rc)));
+            ev("acquired a loop handle");
+            return add_loop(h, conts[(size_t) pr.first].cif, m->uid, l->uid, pr.first);
+        }
+    }
     return v.empty() ? -1 : v[x % v.size()];
 }
 MCont *ApiRun::mcont(int slot) { return find_cont(cifs[(size_t) conts[(size_t) slot].cif].model, conts[(size_t) slot].uid); }
@@ -245,6 +277,7 @@ cif_value_tp *ApiRun::make_value(const Op &o, MValue &snap, uint64_t salt) {
     cif_value_tp *v = build_value(specv, &rc);
     if (!v) violate("value_build", rc_name(rc), strprintf("could not build value %s through the public API: %s", show(specv).c_str(), rc_name(rc)));
     try { snap = snapshot_value(v); } catch (Violation &vi) { cif_value_free(v); violate("value_build", vi.sig, vi.detail); }
+    ev("value %s", show(specv, 160).c_str());
     std::string a = canon(specv, VE_ROUNDTRIP), b = canon(snap, VE_ROUNDTRIP);
     // VE_ROUNDTRIP folds number kinds; here kinds must match exactly, so compare kind separately
     if (specv.kind != snap.kind || a != b) { cif_value_free(v); violate("value_build", "mismatch", strprintf("value built through the API reads back differently: wanted %s got %s", show(specv).c_str(), show(snap).c_str())); }
